@@ -81,6 +81,11 @@ Definition op_monitors (cx : Ctx) (pre : State) (op : Op) (accepted : bool) (pos
       [ ("authz.store", negb accepted || negb (sig_sane_b (st_owner m) (st_sig m)) ||
                         (signed_by_b pre (st_owner m) (st_sig m) &&
                          match metas pre !! st_data m with Some em => may_update em (st_owner m) | None => true end));
+        (* C16: an accepted update names the model's latest committed version as its base *)
+        ("ver.base_is_latest", negb accepted ||
+           match metas pre !! st_data m with
+           | Some em => String.eqb (fst (split_commit (st_commit m))) (m_commit em)
+           | None => true end);
         ("authz.payer", negb accepted ||
            forallb (fun a =>
              (String.eqb (st_paydid m) "" && bool_decide (pay_addr pre (st_owner m) = Some a) &&
@@ -91,7 +96,12 @@ Definition op_monitors (cx : Ctx) (pre : State) (op : Op) (accepted : bool) (pos
              (negb (String.eqb (st_paydid m) "") && bool_decide (pay_addr pre (st_paydid m) = Some a) && String.eqb a (st_creator m)))
              (payers pre post)) ]
   | ORenew m =>
-      [ ("authz.renew", negb accepted || negb (sig_sane_b (rn_owner m) (rn_sig m)) ||
+      [ (* whoever is charged for a renewal (provider collateral top-ups aside) is the payment address of the signing owner *)
+        ("authz.renew_payer", negb accepted ||
+           forallb (fun a => bool_decide (pay_addr pre (rn_owner m) = Some a) ||
+                             existsb (fun kv => String.eqb (sh_sp kv.2) a) (map_to_list (shards pre)))
+                   (payers pre post));
+        ("authz.renew", negb accepted || negb (sig_sane_b (rn_owner m) (rn_sig m)) ||
            forallb (fun kv => meta_eqb (Some kv.2) (metas post !! kv.1) ||
                               (signed_by_b pre (rn_owner m) (rn_sig m) && String.eqb (m_owner kv.2) (rn_owner m) && in_list kv.1 (rn_data m)))
                    (map_to_list (metas pre))) ]
